@@ -94,8 +94,8 @@ def render_program(items, main='main.asm', sp=' ') -> dict:
         lines = []
         for it in its:
             lines.append(render_item(it, sp))
-            if it['t'] == 'include':
-                emit(it.get('path', it['file']), it['items'])
+            if it['t'] == 'include' and not it.get('absent'):
+                emit(it.get('path', it['file']), it['items'])       # ('absent': the named file does not exist)
         files[fname] = '\n'.join(lines) + '\n'
     emit(main, items)
     return files
